@@ -15,14 +15,17 @@ from harness import core
 
 HOSTS = {
     # name: (template with %s, leaves)
-    'integer': ('[assert]\nexit-code %s\n', {'T': '== 0', 'F': '!= 0'}, {}),
-    'file': ('[setup]\nfile f\n[assert]\nexists f : %s\n', {'T': 'constant true', 'F': 'constant false'}, {}),
-    'text': ('[assert]\ncontents -rel-home one.txt : %s\n', {'T': 'num-lines >= 0', 'F': 'num-lines < 0'}, {}),
-    'files': ('[setup]\ndir d\n[assert]\ndir-contents d : %s\n', {'T': 'num-files == 0', 'F': 'num-files != 0'}, {}),
+    # ('P': the primitive without its argument - see ExportNear)
+    'integer': ('[assert]\nexit-code %s\n', {'T': '== 0', 'F': '!= 0', 'P': '=='}, {}),
+    'file': ('[setup]\nfile f\n[assert]\nexists f : %s\n', {'T': 'constant true', 'F': 'constant false', 'P': 'name'}, {}),
+    'text': ('[assert]\ncontents -rel-home one.txt : %s\n', {'T': 'num-lines >= 0', 'F': 'num-lines < 0', 'P': 'num-lines'}, {}),
+    'files': ('[setup]\ndir d\n[assert]\ndir-contents d : %s\n', {'T': 'num-files == 0', 'F': 'num-files != 0', 'P': 'num-files'}, {}),
     'line': ('[assert]\ncontents -rel-home one.txt : any line : ( %s )\n',
-             {'T': 'line-num >= 1', 'F': 'line-num < 1'}, {}),
+             {'T': 'line-num >= 1', 'F': 'line-num < 1', 'P': 'contents matches'}, {}),
     'line-num': ('[assert]\ncontents -rel-home one.txt : any line : line-num ( %s )\n',
-                 {'T': '>= 1', 'F': '< 1'}, {}),
+                 {'T': '>= 1', 'F': '< 1', 'P': '>='}, {}),
+    # primitives whose argument is a REGEX (a string: a reserved word is not one)
+    'text+regex': ('[assert]\ncontents -rel-home one.txt : %s\n', {'T': "matches 'o'", 'F': "matches 'O'", 'P': 'matches'}, {}),
 }
 # a primitive whose argument is an expression itself (an INTEGER-MATCHER): the argument may begin on the next line
 for _h, _name in (('text', 'num-lines'), ('files', 'num-files'), ('line', 'line-num')):
@@ -170,9 +173,16 @@ def run(ctx):
             tr = trees if not quick or host == 'integer' else rnd.sample(trees, min(len(trees), 1500))
             run_host(ctx, pool, host, tr, 'trees <= %d postfix tokens x layouts' % lt)
         # near misses of well-formed expressions (one token deleted / inserted), in the bare and in a wrapping host
+        no_arg = [c for c in near if 'P' in c['ts']]
+        rest = [c for c in near if 'P' not in c['ts']]
+        if len(no_arg) < 50:
+            raise core.MachineryFailure('only %d near misses with a primitive that has lost its argument' % len(no_arg))
         for host in ('integer', 'line-num', 'files'):
-            nm = near if not quick or host == 'integer' else rnd.sample(near, min(len(near), 2500))
+            nm = rest if not quick or host == 'integer' else rnd.sample(rest, min(len(rest), 2500))
             run_host(ctx, pool, host, nm, 'near misses')
+        for host in ('integer', 'file', 'text', 'files', 'line', 'line-num', 'text+regex'):
+            run_host(ctx, pool, host, no_arg if not quick else rnd.sample(no_arg, min(len(no_arg), 600)),
+                     'near misses: a primitive without its argument')
         # quantifiers (`every line :` ...) bind like a prefix operator: their operand is a simple expression
         lq = 5 if quick else 6
         mcq = ctx.tlc('ExprGrammar', cfg('strings', lq + 1, ['QuantifierIsPrefixOperator', 'LeftToRight'], quant=True),
